@@ -296,6 +296,8 @@ func Run(rep *hx.Report, props Props, tier string, sh hx.Shard, deadline time.Ti
 			r.quads(M, alpha, 8, 12)
 			r.pairs(M, Programs(alpha, 10, 2), []uint64{5, 6, 7, 9, 17}, []uint64{40}, full, false)
 			r.pairs(M, Programs(alpha, 10, 2), []uint64{2}, []uint64{24}, [][2]uint64{{3, 4}, {4, 3}, {1, 8}, {8, 2}, {5, 5}}, false)
+			r.classics([]uint64{80, 256, 800, 4096, 8000, 65536}, []uint64{8, 64, 8000}, 80000, true)
+			rep.Bound += "; eight complete warriors of 1..10 instructions (imp, dwarf, replicator, scanner, paper, arithmetic loop, counting loop with split, clear): each alone, every ordered pair at two spacings, every triple of the first five, on cores of 80, 256, 800, 4096, 8000, 65536 cells x process limits 8, 64, 8000 x limits (M,M) and (M/4, M/8+3), 80000 cycles in lock step (cells touched by the reference after every cycle, the whole core every 509th), then Run()"
 		} else {
 			rep.Bound = "five long runs (300 and 70000 cycles, 300 / 257 / 70000 processes); M=8: all programs of length 1..2 over 16 letters alone; all ordered pairs of them x offsets 1..7 x P 1..3 x cycle limit 16; all ordered pairs over 8 letters x every entry point x cycle limits 1..4 at P=2; all triples over 10 letters x all offset pairs at P in {1,2}; all quadruples over 6 letters; all ordered pairs over 7 letters with process limits 5, 6, 9"
 			p2 := Programs(alpha, 16, 2)
@@ -306,6 +308,8 @@ func Run(rep *hx.Report, props Props, tier string, sh hx.Shard, deadline time.Ti
 			r.quads(M, alpha, 6, 10)
 			// larger process limits (queues that grow well past 4 entries and wrap their ring)
 			r.pairs(M, Programs(alpha, 7, 2), []uint64{5, 6, 9}, []uint64{24}, full, false)
+			r.classics([]uint64{80, 256, 4096, 8000}, []uint64{8, 64, 8000}, 6000, false)
+			rep.Bound += "; eight complete warriors of 1..10 instructions (imp, dwarf, replicator, scanner, paper, arithmetic loop, counting loop with split, clear): each alone and every ordered pair at two spacings on cores of 80, 256, 4096, 8000 cells x process limits 8, 64, 8000 x limits (M,M) and (M/4, M/8+3), 6000 cycles in lock step (cells touched by the reference after every cycle, the whole core every 509th), then Run()"
 		}
 	case props.C12:
 		if sh.I == 0 {
@@ -319,6 +323,12 @@ func Run(rep *hx.Report, props Props, tier string, sh hx.Shard, deadline time.Ti
 				}
 			}
 		}
+		// complete warriors on larger cores under the chosen shifts
+		if thorough {
+			r.classics([]uint64{64, 257, 4096}, []uint64{8, 300}, 3000, true)
+		} else {
+			r.classics([]uint64{257}, []uint64{8}, 1500, false)
+		}
 		for _, m := range []uint64{8, 5} {
 			al := Alphabet(m)
 			lims := [][2]uint64{{m, m}, {3, 4}}
@@ -327,24 +337,28 @@ func Run(rep *hx.Report, props Props, tier string, sh hx.Shard, deadline time.Ti
 				r.singles(m, Programs(al, len(al), 2), lims, 12)
 				r.pairs(m, Programs(al, 10, 2), []uint64{2}, []uint64{12}, lims, true)
 				r.triples(m, al, 8, []uint64{2}, 10, lims[:1])
+				rep.Bound += "; eight complete warriors of 1..10 instructions alone, in every ordered pair at two spacings and in triples on cores of 64 (every shift), 257 and 4096 cells (shifts 1, 65535, 65536, 65537, M-1, M, M+1, 3M+7), process limits 8 and 300, 3000 cycles; a 70001-cell core with offsets around 2^16"
 			} else {
 				rep.Bound = "M in {8,5}, limits (M,M) and (3,4): all programs of length 1..2 over the 20-letter alphabet and of length 3 over 6 letters alone (first and last instruction as entry point); all ordered pairs of programs of length 1..2 over 6 letters x every offset at P=2; all triples over 5 letters; each x every shift x 3 offset spellings"
 				r.singles(m, Programs(al, len(al), 2), lims, 10)
 				r.singles(m, Programs(al, 6, 3)[42:], lims[:1], 10) // the 216 three-instruction programs over 6 letters
 				r.pairs(m, Programs(al, 6, 2), []uint64{2}, []uint64{10}, lims, true)
 				r.triples(m, al, 5, []uint64{2}, 8, lims[:1])
+				rep.Bound += "; eight complete warriors of 1..10 instructions alone and in every ordered pair at two spacings on a 257-cell core (shifts 1, 65535, 65536, 65537, M-1, M, M+1, 3M+7), 1500 cycles; a 70001-cell core with offsets around 2^16"
 			}
 		}
 	case props.C04:
 		if thorough {
-			rep.Bound = "every one-instruction warrior (7616 forms x 4 field pairs) against 12 hostile programs, M in {8,3}, P in {1,2,5}, every load offset, 30 cycles, invariants after every cycle"
+			rep.Bound = "every one-instruction warrior (7616 forms x 4 field pairs) against 12 hostile programs, M in {8,3}, P in {1,2,5}, every load offset, 30 cycles, invariants after every cycle; eight complete warriors of 1..10 instructions alone, in pairs and in triples on a 64-cell core, process limits 3, 8, 64, 2000 cycles"
 			r.hostileProduct(8, []uint64{1, 2, 5}, [][2]uint64{{1, 7}, {7, 1}, {0, 0}, {2, 3}}, []uint64{1, 2, 3, 4, 5, 6, 7})
 			r.hostileProduct(3, []uint64{1, 2, 5}, [][2]uint64{{1, 2}, {2, 1}, {0, 0}, {2, 2}}, []uint64{1, 2})
+			r.classics([]uint64{64}, []uint64{3, 8, 64}, 2000, true)
 			r.configs(true)
 			rep.Bound += "; boundary product of all 7 configuration fields x 3 modes (241920 configurations): creation errors or a hostile 3-warrior battle of min(cycles,40) cycles under the invariants"
 		} else {
-			rep.Bound = "every one-instruction warrior (7616 forms x 2 field pairs) against 12 hostile programs, M=8, P in {1,3}, offsets {1,4,7}, 30 cycles, invariants after every cycle"
+			rep.Bound = "every one-instruction warrior (7616 forms x 2 field pairs) against 12 hostile programs, M=8, P in {1,3}, offsets {1,4,7}, 30 cycles, invariants after every cycle; eight complete warriors of 1..10 instructions alone and in every ordered pair on a 64-cell core, process limit 8, 600 cycles"
 			r.hostileProduct(8, []uint64{1, 3}, [][2]uint64{{1, 7}, {0, 3}}, []uint64{1, 4, 7})
+			r.classics([]uint64{64}, []uint64{8}, 600, false)
 			r.configs(false)
 			rep.Bound += "; boundary product of the configuration fields x 3 modes with the 2^20 core/process values on a diagonal only"
 		}
@@ -353,20 +367,22 @@ func Run(rep *hx.Report, props Props, tier string, sh hx.Shard, deadline time.Ti
 			r.ck.manyResets(64, 70000)
 		}
 		if thorough {
-			rep.Bound = "one simulator (M=64) through 70000 battles separated by Reset, most of them away from the cells the first one touched; recording listener + StateRecorder on: all programs of length 1..2 over 16 letters alone; all ordered pairs of programs of length 1..2 over 12 letters x offsets x P 1..2; triples over 8 letters; 12-letter programs with Reset after every cycle count 0..6; load offsets M, M+3, 2M+7, 5M"
+			rep.Bound = "one simulator (M=64) through 70000 battles separated by Reset, most of them away from the cells the first one touched; recording listener + StateRecorder on: all programs of length 1..2 over 16 letters alone; all ordered pairs of programs of length 1..2 over 12 letters x offsets x P 1..2; triples over 8 letters; 12-letter programs with Reset after every cycle count 0..6; load offsets M, M+3, 2M+7, 5M; eight complete warriors of 1..10 instructions alone, in pairs and in triples on a 64-cell core, process limits 3, 8, 64, 2000 cycles"
 			p2 := Programs(alpha, 12, 2)
 			r.singles(M, Programs(alpha, 16, 2), full, 16)
 			r.pairs(M, p2, []uint64{1, 2}, []uint64{16}, full, false)
 			r.triples(M, alpha, 8, []uint64{2}, 10, full)
 			r.resets(M, Programs(alpha, 12, 2), 6)
 			r.bigOffsets(M, Programs(alpha, 12, 2))
+			r.classics([]uint64{64}, []uint64{3, 8, 64}, 2000, true)
 		} else {
-			rep.Bound = "one simulator (M=64) through 70000 battles separated by Reset, most of them away from the cells the first one touched; recording listener + StateRecorder on: all programs of length 1..2 over 12 letters alone; all ordered pairs of programs of length 1..2 over 8 letters x offsets at P=2; triples over 5 letters; 8-letter programs with Reset after every cycle count 0..4; load offsets M, M+3, 2M+7, 5M"
+			rep.Bound = "one simulator (M=64) through 70000 battles separated by Reset, most of them away from the cells the first one touched; recording listener + StateRecorder on: all programs of length 1..2 over 12 letters alone; all ordered pairs of programs of length 1..2 over 8 letters x offsets at P=2; triples over 5 letters; 8-letter programs with Reset after every cycle count 0..4; load offsets M, M+3, 2M+7, 5M; eight complete warriors of 1..10 instructions alone and in every ordered pair on a 64-cell core, process limit 8, 600 cycles"
 			r.singles(M, Programs(alpha, 12, 2), full, 12)
 			r.pairs(M, Programs(alpha, 8, 2), []uint64{2}, []uint64{12}, full, false)
 			r.triples(M, alpha, 5, []uint64{2}, 8, full)
 			r.resets(M, Programs(alpha, 8, 2), 4)
 			r.bigOffsets(M, Programs(alpha, 8, 2))
+			r.classics([]uint64{64}, []uint64{8}, 600, false)
 		}
 	default:
 		rep.Note(fmt.Sprintf("engine e2 has no space for props %+v", props))
